@@ -217,6 +217,43 @@ func emitImp(cw *caseWriter, f, ty string, v interface{}) { emitImpFor(cw, "C10"
 
 func emitImpFor(cw *caseWriter, prop, f, ty string, v interface{}) { emitImpAfter(cw, prop, f, ty, nil, v) }
 
+// emitImpAfterValue: a column declared (f, ty) first imports a jsonline.Value of ANOTHER declaration (f2, ty2) —
+// which, by the API, hands its format, raw value and raw type over to the cell — and then v: the cell behaves as
+// a column declared (f2, ty2) from then on, range checks included. The case is judged as an import of v into a
+// column (f2, ty2).
+func emitImpAfterValue(cw *caseWriter, prop, f, ty, f2, ty2 string, held, v interface{}) {
+	t := jsonline.NewTemplate().With("c", formatByName[f], tySample[ty])
+	ext := map[string]string{}
+	extForValue(v, ext)
+	if sv, ok := v.(string); ok {
+		extForText(sv, ext)
+	}
+	if nv, ok := v.(json.Number); ok {
+		extForText(string(nv), ext)
+	}
+	impl := "-"
+	pan := guard(func() {
+		row := t.CreateRowEmpty()
+		if err := row.ImportAtKey("c", jsonline.NewValue(held, formatByName[f2], tySample[ty2])); err != nil {
+			impl = "err " + classify(err)
+			return
+		}
+		if err := row.ImportAtKey("c", v); err != nil {
+			impl = "err " + classify(err)
+			return
+		}
+		got, _ := row.Get("c")
+		extForValue(got, ext)
+		impl = "ok " + dynStr(got)
+	})
+	if pan != "" {
+		impl = "panic " + strings.ReplaceAll(strings.ReplaceAll(pan, "\t", " "), "\n", " ")
+	}
+	cw.count("imp-after-value:" + f2 + ":" + strings.SplitN(impl, " ", 2)[0])
+	s := dynStr(v)
+	cw.emit("imp "+prop+" "+f+" "+ty+" after Value "+f2+" "+ty2+" "+s, true, "imp", prop, f2, ty2, s, extStr(ext), impl)
+}
+
 // emitImpAfter: the same import into a cell (and row) that has just REJECTED something else (before, when not
 // nil): a refused value leaves the cell as it was — declared format and raw type included.
 func emitImpAfter(cw *caseWriter, prop, f, ty string, before []interface{}, v interface{}) {
